@@ -29,7 +29,9 @@ Idle == [st |-> "idle", k |-> "N", v |-> 0]
 Init == \E i \in Starts :
    /\ l = i + 1 /\ mm = [op |-> Trace[i].s, g |-> Trace[i].s, k |-> Trace[i].v]
    /\ st = [St0 EXCEPT !.live = 1..Trace[i].v, !.subs = 1..Trace[i].v, !.won = IF Trace[i].s = "WindowWhen" THEN 1 ELSE 0] /\ closed = FALSE
-   /\ call = [s \in S |-> Idle] /\ want = <<>> /\ gotn = 0 /\ unsubbing = FALSE
+   /\ call = [s \in S |-> Idle] /\ gotn = 0
+   /\ want = IF Trace[i].s = "WindowWhen" THEN <<[k |-> "N", v |-> 1001, fg |-> FALSE]>> ELSE <<>>      \* the first window is handed out by Subscribe
+   /\ unsubbing = FALSE
 
 \* integer encoding of an output value (the harness uses the same): tuples / buffers of small integers
 RECURSIVE Fold(_)
@@ -45,7 +47,7 @@ Arrive(s) ==
    /\ call[s].st = "inv"
    /\ LET n == [k |-> call[s].k, v |-> call[s].v, c |-> {}]
           a == ArriveF(mm, st, closed, s, n)
-          outs == [j \in 1..Len(a.out) |-> [k |-> a.out[j].k, v |-> IF a.out[j].k = "N" THEN Enc(a.out[j].v) ELSE 0, fg |-> unsubbing]]
+          outs == [j \in 1..Len(a.out) |-> [k |-> a.out[j].k, v |-> IF a.out[j].k = "N" THEN Enc(a.out[j].v) ELSE IF a.out[j].k \in {"I", "IC", "IE"} THEN a.out[j].v ELSE 0, fg |-> unsubbing]]
       IN /\ st' = a.st /\ closed' = a.closed /\ want' = want \o outs
    /\ call' = [call EXCEPT ![s].st = "lin"]
    /\ UNCHANGED <<l, mm, gotn, unsubbing>>
@@ -56,7 +58,7 @@ Ret == /\ Is("ret") /\ call[Ev.p].st = "lin"
 
 Recv == /\ Is("recv")
         /\ \E j \in (gotn + 1)..Len(want) :
-              /\ want[j].k = Ev.k /\ (Ev.k = "N" => want[j].v = Ev.v)
+              /\ want[j].k = Ev.k /\ (Ev.k \in {"N", "I", "IC", "IE"} => want[j].v = Ev.v)
               /\ \A j2 \in (gotn + 1)..(j - 1) : want[j2].fg
               /\ gotn' = j
         /\ l' = l + 1 /\ UNCHANGED <<mm, st, closed, call, want, unsubbing>>
